@@ -120,4 +120,139 @@ theorem mass_succ (G : TT S Unit) (tags : Tags S Unit) (h : RowsNodup G) (k : Na
   apply congrArg
   exact sum_product (fun a t => prob G tags t (argNT a)) (fun a => lang G k (argNT a)) args
 
+/-! ### the total mass -/
+
+theorem rowsNodup_of_normalised (G : TT S Unit) (tags : Tags S Unit) (hn : Normalised G tags) :
+    RowsNodup G := by
+  intro nt rs hl
+  exact (hn (nt, rs) (AList.lookup_some_mem hl)).2
+
+theorem prod_eq_one_of_forall {α : Type} (l : List α) (g : α → Rat) (h : ∀ x ∈ l, g x = 1) :
+    (l.map g).prod = 1 := by
+  induction l with
+  | nil => simp
+  | cons x xs ih =>
+    simp only [List.map_cons, List.prod_cons]
+    rw [h x (by simp), ih (fun y hy => h y (by simp [hy])), Rat.mul_one]
+
+/-- M4 (the theorem): a normalised grammar, all of whose derivations from `nt` finish within `k`
+    levels, gives total probability 1 to the programs derivable from `nt` -/
+theorem mass_eq_one (G : TT S Unit) (tags : Tags S Unit) (hk : (AList.keys G.rules).Nodup)
+    (hn : Normalised G tags) (k : Nat) (nt : NT S Unit) (hb : bounded G k nt = true) :
+    mass G tags k nt = 1 := by
+  have _ := hk
+  induction k generalizing nt with
+  | zero => simp [bounded] at hb
+  | succ k ih =>
+    unfold bounded at hb
+    cases hl : AList.lookup nt G.rules with
+    | none => rw [hl] at hb; simp at hb
+    | some rs =>
+      rw [hl] at hb
+      simp only [List.all_eq_true] at hb
+      rw [mass_succ G tags (rowsNodup_of_normalised G tags hn) k nt rs hl]
+      have e : rs.map (fun r => weight tags nt r.1 *
+            (r.2.1.map (fun a => mass G tags k (argNT a))).prod)
+          = rs.map (fun r => weight tags nt r.1) := by
+        apply List.map_congr_left
+        intro r hr
+        rw [prod_eq_one_of_forall _ _ (fun a ha => ih (argNT a) (hb r hr a ha)), Rat.mul_one]
+      rw [e]
+      exact (hn (nt, rs) (AList.lookup_some_mem hl)).1
+
+/-! ### `bounded` -/
+
+/-- M5: `bounded` is monotone, and bounds the depth of every derivable term: `lang G k nt` is then
+    the whole language of `nt` -/
+theorem bounded_mono (G : TT S Unit) (k : Nat) (nt : NT S Unit) (h : bounded G k nt = true) :
+    bounded G (k + 1) nt = true := by
+  induction k generalizing nt with
+  | zero => simp [bounded] at h
+  | succ k ih =>
+    rw [bounded] at h ⊢
+    cases hl : AList.lookup nt G.rules with
+    | none => rw [hl] at h; simp at h
+    | some rs =>
+      rw [hl] at h
+      simp only [List.all_eq_true] at h ⊢
+      intro r hr a ha
+      exact ih (argNT a) (h r hr a ha)
+
+theorem depthList_le_of_bounded (G : TT S Unit) (k : Nat)
+    (ih : ∀ (t : Prog) (nt : NT S Unit), bounded G k nt = true → gen G t nt = true →
+      Tree.depth t ≤ k) :
+    ∀ (kids : List Prog) (args : List (Ty × S)),
+      (∀ a ∈ args, bounded G k (argNT a) = true) → genList G kids args = true →
+      Tree.depthList kids ≤ k
+  | [], _ => by intro _ _; simp [Tree.depthList]
+  | _ :: _, [] => by intro _ h; simp [genList] at h
+  | t :: ts, (ty, s) :: as => by
+    intro hb hg
+    simp only [genList, Bool.and_eq_true] at hg
+    simp only [Tree.depthList]
+    apply Nat.max_le.mpr
+    constructor
+    · exact ih t (ty, (s, ())) (hb (ty, s) (by simp)) hg.1
+    · exact depthList_le_of_bounded G k ih ts as (fun a ha => hb a (by simp [ha])) hg.2
+
+theorem depth_le_of_bounded (G : TT S Unit) (k : Nat) (t : Prog) (nt : NT S Unit)
+    (hb : bounded G k nt = true) (hg : gen G t nt = true) : Tree.depth t ≤ k := by
+  induction k generalizing t nt with
+  | zero => simp [bounded] at hb
+  | succ k ih =>
+    cases t with
+    | node f kids =>
+      rw [bounded] at hb
+      rw [gen] at hg
+      simp only [TT.rule?] at hg
+      cases hl : AList.lookup nt G.rules with
+      | none => rw [hl] at hb; simp at hb
+      | some rs =>
+        rw [hl] at hb hg
+        simp only [List.all_eq_true] at hb hg
+        cases hlk : AList.lookup f rs with
+        | none => rw [hlk] at hg; simp at hg
+        | some r =>
+          obtain ⟨args, u⟩ := r
+          rw [hlk] at hg
+          have hmem := AList.lookup_some_mem hlk
+          have := depthList_le_of_bounded G k ih kids args (fun a ha => hb _ hmem a ha) hg
+          simp only [Tree.depth]
+          omega
+
+theorem mem_lang_of_bounded (G : TT S Unit) (h : RowsNodup G) (k : Nat) (t : Prog) (nt : NT S Unit)
+    (hb : bounded G k nt = true) : t ∈ lang G k nt ↔ gen G t nt = true := by
+  rw [mem_lang_iff G h k t nt]
+  exact ⟨fun h => h.1, fun hg => ⟨hg, depth_le_of_bounded G k t nt hb hg⟩⟩
+
+/-! ### the counter -/
+
+theorem count_succ (G : TT S Unit) (k : Nat) (nt : NT S Unit)
+    (rs : AList Sym (List (Ty × S) × Unit)) (hl : AList.lookup nt G.rules = some rs) :
+    count G (k + 1) nt
+      = (rs.map (fun r => (r.2.1.map (fun a => count G k (argNT a))).foldl (· * ·) 1)).sum := by
+  simp only [count, hl]
+  rfl
+
+/-- M6: the counter is stable once the grammar is exhausted -/
+theorem count_stable (G : TT S Unit) (k : Nat) (nt : NT S Unit) (hb : bounded G k nt = true) :
+    count G (k + 1) nt = count G k nt := by
+  induction k generalizing nt with
+  | zero => simp [bounded] at hb
+  | succ k ih =>
+    rw [bounded] at hb
+    cases hl : AList.lookup nt G.rules with
+    | none => rw [hl] at hb; simp at hb
+    | some rs =>
+      rw [hl] at hb
+      simp only [List.all_eq_true] at hb
+      rw [count_succ G (k + 1) nt rs hl, count_succ G k nt rs hl]
+      apply congrArg
+      apply List.map_congr_left
+      intro r hr
+      congr 1
+      apply List.map_congr_left
+      intro a ha
+      exact ih (argNT a) (hb r hr a ha)
+
 end PS.G
